@@ -215,8 +215,14 @@ class Program:
         return [b for b in self.bodies.values() if r.search(b.path)]
 
     def adt(self, name):
-        a = self.adts_by_name.get(name)
+        a = self.adts.get(name) or self.adts_by_name.get(name)
+        if a is not None and not a.get("local") and a["key"] in self.adts:
+            a = self.adts[a["key"]]
         if a is None:
+            last = name.split("::")[-1]
+            c = [x for x in self.adts.values() if x["key"].split("::")[-1] == last and x["key"].split("::")[0] == name.split("::")[0]]
+            if len(c) == 1:
+                return c[0]
             raise AnchorMissing("type not found: %s" % name)
         return a
 
